@@ -11,6 +11,8 @@ TRUSTED_BASE = [
 ]
 ASSUMPTIONS = TRUSTED_BASE + [
     "shapes: npart in 1..3, dim in 1..3, all real masses > 0, beta > 0, arbitrary drawn velocities",
+    "proved (E1, all path lengths): prepare_shooting_point regenerates velocities exactly once and on a fresh copy of the (interior) shooting frame, recomputes the order parameter for that copy, and leaves the frame it was taken from, "
+    "every other frame and the path untouched (engine.modify_velocities / calculate_order as in C09: they only touch the System they are given)",
     "GROMACS' own gen_vel branch (external program) is outside; the infretis_genvel branch is covered",
     "units: only the LAMMPS conversion constant is checked (scale^2 * 4.184e-4 == 1 to 1e-9); k_B constants of the other engines are not re-derived",
 ]
@@ -26,7 +28,10 @@ BOUNDS = {"npart": "1..3", "dim": "1..3"}
 def jobs(tier):
     names = ["kinetic_energy", "reset_momentum", "draw_maxwellian", "lammps_units",
              "modify_velocities_turtlemd", "modify_velocities_cp2k", "modify_velocities_lammps", "modify_velocities_gromacs", "modify_velocities_ase"]
-    return [("py", {"name": n, "module": "props.C16", "fn": "run_clause", "clause": n, "cost": 3}) for n in names]
+    js = [("py", {"name": n, "module": "props.C16", "fn": "run_clause", "clause": n, "cost": 3}) for n in names]
+    js.append(("e1", {"name": "prepare_shooting_point", "registry": "contracts.tis_moves", "key": "prepare_shooting_point#contract",
+               "clause": "velocities are regenerated exactly once, on a fresh copy of the shooting frame (identity kept, order recomputed); the frame it was taken from, every other frame and the path are untouched", "cost": 1, "parallel": 2}))
+    return js
 
 
 class _Rgen:
